@@ -277,7 +277,8 @@ def gen_fills(rng, tier):
     cases = []
     counts = [0, 1, 2, 3, 40, 255, 256, 65535, 65536, 65537, -1, -2, -65535, -65536, 1 << 20, -(1 << 20)]
     if tier != "quick":
-        counts += [rng.randrange(0, 65536) for _ in range(20)] + [rng.randrange(-70000, 140000) for _ in range(20)]
+        counts += ([rng.randrange(0, 65536) for _ in range(4)] + [rng.randrange(0, 3000) for _ in range(20)]
+                   + [rng.randrange(-70000, 0) for _ in range(10)] + [rng.randrange(65536, 140000) for _ in range(10)])
     for name in (".blkb", ".blkw"):
         for n in counts:
             if n > 3000 and tier == "quick" and n < 65536 and n != 65535:
